@@ -276,19 +276,21 @@ class TableModel:
 # ============================================================================================ SQLite catalog
 
 class SqliteCatalog:
-    """what SQLite reports for a TableModel (oracles/sqlite_catalog.json)"""
+    """what SQLite answers for a TableModel (oracles/sqlite_catalog.json).  The model sits at the connection: it
+    understands the two kinds of statement SQLite reflection sends -- `PRAGMA [<db>.]<name>(<object>)` and a
+    SELECT of the `sql` column of sqlite_master for a name given as parameter -- and nothing of the dialect's own
+    helper methods is replaced."""
 
-    def __init__(self, tm: TableModel, table_sql: str, indexes=()):
+    _PRAGMA = re.compile(r'''^\s*PRAGMA\s+(?:(?:"((?:[^"]|"")+)"|(\w+))\.)?(\w+)\s*\(\s*(?:"((?:[^"]|"")+)"|(\w+))\s*\)\s*$''',
+                         re.I)
+
+    def __init__(self, tm: TableModel, table_sql: str, indexes=(), type_texts: Optional[Dict[str, str]] = None):
         self.o = load("sqlite_catalog.json")
         self.tm, self.table_sql = tm, table_sql.strip()
         self.indexes = list(indexes)         # (name, cols, unique, where, sql)
+        self.type_texts = dict(type_texts or {})
         W = tm.W
-        d = W.dialect
-        d.stubs["_get_table_pragma"] = self.pragma
-        d.stubs["_get_table_sql"] = lambda connection, table_name, schema=None, **kw: (
-            self.table_sql if table_name == tm.name else None)
-        d.stubs["has_table"] = lambda *a, **k: True
-        d.attrs.setdefault("server_version_info", (3, 40, 1))
+        W.dialect.attrs.setdefault("server_version_info", (3, 40, 1))
         W.conn.stubs["exec_driver_sql"] = self.exec_driver_sql
 
     def _row(self, layout: str, **vals):
@@ -300,15 +302,22 @@ class SqliteCatalog:
             out.append((self.o["autoindex_name"].format(table=self.tm.name, n=n), list(u["cols"])))
         return out
 
-    def pragma(self, connection, pragma, table_name, schema=None):
+    def pragma(self, pragma, table_name):
         tm = self.tm
         names = [c[0] for c in tm.columns]
         if pragma in ("table_xinfo", "table_info"):
             if table_name != tm.name:
-                return [self._row(pragma, cid=0, name="id", type="INTEGER", notnull=1, dflt_value=None, pk=1, hidden=0)]
-            return [self._row(pragma, cid=i, name=n, type=tm.type_text(n), notnull=0 if (nl and n not in tm.pk) else 1,
+                if table_name in tm.tables:
+                    rcols = [n for (t, n) in tm.cols if t == table_name]
+                    return [self._row(pragma, cid=i, name=n, type="INTEGER", notnull=1, dflt_value=None, pk=i + 1,
+                                      hidden=0) for i, n in enumerate(rcols)]
+                return []
+            return [self._row(pragma, cid=i, name=n, type=self.type_texts.get(n) or tm.type_text(n),
+                              notnull=0 if (nl and n not in tm.pk) else 1,
                               dflt_value=None, pk=(tm.pk.index(n) + 1 if n in tm.pk else 0), hidden=0)
                     for i, (n, t, nl) in enumerate(tm.columns)]
+        if table_name != tm.name and pragma != "index_info":
+            return []
         if pragma == "foreign_key_list":
             rows = []
             fks = list(enumerate(reversed(tm.fks))) if self.o["fk_ids_reverse_declaration_order"] else list(enumerate(tm.fks))
@@ -341,17 +350,31 @@ class SqliteCatalog:
         raise Unsupported(f"PRAGMA {pragma} is not part of the SQLite catalog model")
 
     def exec_driver_sql(self, statement, parameters=None, *a, **k):
-        # `SELECT sql FROM sqlite_master WHERE name = ? ...`
-        value = None
-        if parameters:
-            for name, cols, unique, where, sql in self.indexes:
-                if name == parameters[0]:
-                    value = sql.strip()
-            if parameters[0] == self.tm.name:
-                value = self.table_sql
         res = Inst(None, {}, label="result")
-        res.stubs["scalar"] = lambda: value
-        return res
+        m = self._PRAGMA.match(statement) if isinstance(statement, str) else None
+        if m:
+            db = (m.group(1) or "").replace('""', '"') or m.group(2) or "main"
+            obj = m.group(4).replace('""', '"') if m.group(4) is not None else m.group(5)
+            rows = [] if db.lower() == "temp" else self.pragma(m.group(3).lower(), obj)
+            res.attrs["_soft_closed"] = not rows       # a cursor without rows is closed at once
+            res.stubs["fetchall"] = lambda: list(rows)
+            res.stubs["all"] = lambda: list(rows)
+            res.stubs["__iter__"] = lambda: list(rows)
+            return res
+        if isinstance(statement, str) and re.search(r"\bsqlite_(?:temp_)?master\b", statement, re.I) and parameters:
+            value = None
+            wants_index = re.search(r"type\s*=\s*'index'", statement, re.I) is not None
+            if wants_index:
+                for name, cols, unique, where, sql in self.indexes:
+                    if name == parameters[0]:
+                        value = sql.strip()
+            elif parameters[0] == self.tm.name:
+                value = self.table_sql
+            elif parameters[0] in self.tm.tables:
+                value = f"CREATE TABLE {parameters[0]} (id INTEGER NOT NULL, PRIMARY KEY (id))"
+            res.stubs["scalar"] = lambda: value
+            return res
+        raise Unsupported(f"the SQLite catalog model does not understand the statement {str(statement)[:80]!r}")
 
 
 # ============================================================================================ comparisons
@@ -642,9 +665,6 @@ class MysqlCatalog:
         conn = W.conn
         conn.stubs["execution_options"] = lambda **kw: conn
         conn.stubs["exec_driver_sql"] = lambda st, *a, **k: res
-        # row decoding is a DBAPI concern (bytes vs str); the model connection returns str rows
-        d.stubs["_compat_first"] = lambda rp, charset=None: row
-        d.stubs["_compat_fetchone"] = lambda rp, charset=None: row
 
 
 def _mysql_world(ctx) -> World:
@@ -918,15 +938,11 @@ def _read_type(ctx, W: World, dialect: str, catalog_text: str):
     L = W.L
     L.warnings.clear()
     if dialect == "sqlite":
-        d = W.dialect
-        o = load("sqlite_catalog.json")
-        d.stubs["_get_table_pragma"] = lambda connection, pragma, table_name, schema=None: (
-            [tuple({"cid": 0, "name": "x", "type": catalog_text, "notnull": 0, "dflt_value": None, "pk": 0,
-                    "hidden": 0}[k] for k in o["layouts"][pragma])] if pragma in ("table_xinfo", "table_info") else [])
-        d.stubs["_get_table_sql"] = lambda *a, **k: f"CREATE TABLE c (x {catalog_text})"
-        d.stubs["has_table"] = lambda *a, **k: True
-        d.attrs.setdefault("server_version_info", (3, 40, 1))
-        cols = L.call_method(d, "get_columns", W.conn, "c")
+        tm = TableModel(W, "c", [("id", "INTEGER", False), ("x", "INTEGER", True)])
+        SqliteCatalog(tm, f"CREATE TABLE c (id INTEGER NOT NULL, x {catalog_text}, PRIMARY KEY (id))",
+                      type_texts={"x": catalog_text})
+        cols = L.call_method(W.dialect, "get_columns", W.conn, "c")
+        cols = [c for c in cols if isinstance(c, dict) and c.get("name") == "x"] if isinstance(cols, list) else cols
     elif dialect == "postgresql":
         row = _Row(name="x", table_name="c", format_type=catalog_text, default=None, not_null=False, generated="",
                    identity_options=None, comment=None, collation=None)
@@ -1223,6 +1239,8 @@ def _column_record(ctx, W: World, dialect: str, catalog_text: str) -> dict:
     else:
         _read_type(ctx, W, dialect, catalog_text)
         cols = L.call_method(W.dialect, "get_columns", W.conn, "c")
+    if isinstance(cols, list):
+        cols = [c for c in cols if isinstance(c, dict) and c.get("name") == "x"]
     if not isinstance(cols, list) or len(cols) != 1 or not isinstance(cols[0], dict):
         raise Unsupported(f"column reflection returned {cols!r}")
     return cols[0]
